@@ -183,9 +183,12 @@ func parseDNSSL(d rawDNSSL, maxInterval time.Duration) (*plugin.DNSSL, error) {
 		return nil, errors.New("must specify one or more DNS search domain names")
 	}
 
-	// Make sure all domain names are unique.
+	// Make sure all domain names are non-empty and unique.
 	seen := make(map[string]struct{})
 	for _, d := range d.DomainNames {
+		if d == "" {
+			return nil, errors.New("domain names must not be empty")
+		}
 		if _, ok := seen[d]; ok {
 			return nil, fmt.Errorf("domain name %q cannot be specified multiple times", d)
 		}
